@@ -168,23 +168,11 @@ impl Dependencies for Assignment {
         base
     }
 
-    /// custom implementation
+    /// The value is evaluated before the name is bound, so what this statement declares never
+    /// supplies what its own value needs (`x = x + 1`, `x = apply(fn() -> int { return x })`
+    /// read an `x` that exists already - a local declared above, or a captured variable).
     fn net_dependencies(&self) -> Vec<Dependency> {
-        let dependencies = self.dependencies();
-
-        let Some(supply_name) = self.supplies().pop() else {
-            return dependencies;
-        };
-
-        let mut result = Vec::with_capacity(dependencies.len());
-
-        for dependency in dependencies {
-            if dependency != supply_name {
-                result.push(dependency);
-            }
-        }
-
-        result
+        self.dependencies()
     }
 }
 
